@@ -465,7 +465,66 @@ func NBNS(r *rand.Rand, kind string) []byte {
 	return b.Build(m)
 }
 
-var SSDPKinds = []string{"alive", "byebye", "msearch", "ok", "garbage"}
+var SSDPKinds = []string{"alive", "byebye", "msearch", "ok", "garbage", "hostile", "hostile", "hostile"}
+
+// ssdpHostile builds a syntactically valid HTTP-over-UDP message whose header values are recombined from the tokens the
+// parsers look for (byte flips of a canned message practically never produce "x=max-age" or an empty USER-AGENT product).
+func ssdpHostile(r *rand.Rand) []byte {
+	crlf := "\r\n"
+	tok := []string{"max-age", "MAX-AGE", "no-cache", "1800", "0", "-1", "99999999999999999999", "x", "", " ", "ssdp:alive", "ssdp:byebye", "ssdp:all", "upnp:rootdevice",
+		"uuid:RINCON_1::upnp:rootdevice", "http://192.168.0.5:1400/xml/device_description.xml", "http://[fe80::1]:80/", "Linux", "UPnP/1.0", "Sonos/63.2-90210", "Chromium/74.0.3729.131",
+		"Microsoft Edge/91.0.864.64 Windows", "(iPhone; iOS 12.4)", "/", "\"ssdp:discover\"", "239.255.255.250:1900"}
+	seps := []string{"=", " = ", "=", ",", ", ", " ", ";", ""}
+	val := func() string {
+		var sb strings.Builder
+		for n := r.Intn(5); n >= 0; n-- {
+			sb.WriteString(tok[r.Intn(len(tok))])
+			if n > 0 {
+				sb.WriteString(seps[r.Intn(len(seps))])
+			}
+		}
+		return sb.String()
+	}
+	var sb strings.Builder
+	switch r.Intn(6) {
+	case 0, 1, 2:
+		sb.WriteString(pick(r, "NOTIFY", "NOTIFY", "notify", "GET", "M-SEARCH") + " * HTTP/1.1" + crlf)
+	case 3, 4:
+		sb.WriteString(pick(r, "M-SEARCH", "M-SEARCH", "NOTIFY", "m-search") + " * HTTP/1.1" + crlf)
+	default:
+		sb.WriteString("HTTP/1.1 " + pick(r, "200 OK", "404 Not Found", "200", "abc") + crlf)
+	}
+	for _, h := range []string{"HOST", "CACHE-CONTROL", "LOCATION", "NT", "NTS", "SERVER", "USN", "MAN", "MX", "ST", "USER-AGENT"} {
+		switch r.Intn(4) {
+		case 0: // header missing
+		case 1:
+			if h == "NTS" {
+				sb.WriteString("NTS: " + pick(r, "ssdp:alive", "ssdp:alive", "ssdp:byebye", "ssdp:update") + crlf)
+			} else {
+				sb.WriteString(h + ": " + val() + crlf)
+			}
+		default:
+			canned := map[string]string{"HOST": "239.255.255.250:1900", "CACHE-CONTROL": "max-age=1800", "LOCATION": "http://192.168.0.5:1400/d.xml", "NT": "upnp:rootdevice",
+				"NTS": "ssdp:alive", "SERVER": "Linux UPnP/1.0 Sonos/63.2", "USN": "uuid:x", "MAN": "\"ssdp:discover\"", "MX": "1", "ST": "ssdp:all", "USER-AGENT": "Chromium/74 Linux"}
+			v := canned[h]
+			if h == "CACHE-CONTROL" && r.Intn(2) == 0 {
+				// the directive parser splits at '=' and looks for "max-age": every small arrangement of those pieces
+				small := []string{"max-age", "MAX-AGE", "x", "", "1800", "no-cache", " max-age", "max-age "}
+				var cc strings.Builder
+				for n := r.Intn(4); n >= 0; n-- {
+					cc.WriteString(small[r.Intn(len(small))])
+					if n > 0 {
+						cc.WriteString(pick(r, "=", "=", "=", " = ", ","))
+					}
+				}
+				v = cc.String()
+			}
+			sb.WriteString(h + ": " + v + crlf)
+		}
+	}
+	sb.WriteString(crlf)
+	return []byte(sb.String())
+}
 
 // SSDP builds an SSDP message.
 func SSDP(r *rand.Rand, kind string) []byte {
@@ -480,6 +539,8 @@ func SSDP(r *rand.Rand, kind string) []byte {
 	case "msearch":
 		ua := pick(r, "Chromium/74.0.3729.131 Linux", "Microsoft Edge/91.0.864.64 Windows", "My App/4 (iPhone; iOS 12.4) CocoaSSDP/0.1.0/1", "")
 		return []byte("M-SEARCH * HTTP/1.1" + crlf + "HOST: 239.255.255.250:1900" + crlf + "MAN: \"ssdp:discover\"" + crlf + "MX: 1" + crlf + "ST: ssdp:all" + crlf + "USER-AGENT: " + ua + crlf + crlf)
+	case "hostile":
+		return ssdpHostile(r)
 	case "ok":
 		return []byte("HTTP/1.1 200 OK" + crlf + "CACHE-CONTROL: max-age=1800" + crlf + "LOCATION: http://192.168.0.1:5000/rootDesc.xml" + crlf + "ST: upnp:rootdevice" + crlf + crlf)
 	}
